@@ -27,7 +27,7 @@ def exhaustive(tier):
 def required(tier):
     return ["note_at_start-1", "note_at_start", "note_at_end-1", "note_at_end", "zero_length_phrase_on_note_tick", "nested",
             "touching", "equal_starts", "note_before_first_phrase", "note_after_last_phrase", ">=2_phrases_skipped_in_one_step",
-            "track_without_phrases"]
+            "track_without_phrases", "concurrent_stage"]
 
 
 def configs():
@@ -93,11 +93,16 @@ def chart_of(tracks_spec, res=192):
     return gen.render_truth(truth)
 
 
+KEEP = None
+
+
 def run_specs(rec, specs):
     for i in range(0, len(specs), 40):
         chunk = specs[i:i + 40]
         case = chart_of(chunk)
         out, ob, d = mcheck.judge(rec, ("C05",), case)
+        if KEEP is not None:
+            KEEP.add(case)
         if d is not None and not d.of("C05"):
             for phrases, ticks in chunk:
                 classes(rec, phrases, ticks)
@@ -126,6 +131,8 @@ def run_shard(shard, rec, tier, seed):
         specs.append(([], [0, 3, 5]))
         run_specs(rec, specs)
     else:
+        global KEEP
+        KEEP = mcheck.Keep(limit=4, max_chars=25000)
         for i in range(shard["count"]):
             rng = harness.rng_for(seed, ID, shard["name"], i)
             specs = []
@@ -148,6 +155,11 @@ def run_shard(shard, rec, tier, seed):
             run_specs(rec, specs)
             if rec.full:
                 break
+        if not rec.full:
+            # first-use growth: more phrases than any chart parsed so far in this process, parsed by all threads at once
+            npz = 1500
+            big = chart_of([([[10 * k, 5] for k in range(npz)], [10 * k + 1 for k in range(npz - 5, npz)])])
+            mcheck.threaded_stage(rec, ("C05",), KEEP.cases, repeats=1, first={"text": big["text"], "truth": big["truth"]})
     harness.finish(rec)
 
 
